@@ -79,17 +79,19 @@ def _mk(letter, flip):
         return g, g, {"kind": "grad"}
     ev = FunctionEvaluations.create(np.zeros(1), np.zeros((1, 1)))
 
-    def build(sign):
+    def build(sign, vscale=1.0):
         if kind == "nofunc":
             return FunctionResults(batch_id=None, metadata={}, evaluations=ev, realizations=real, functions=None, constraint_info=None)
         obj = OBJ[oi]
         viol = {"ok": 0.0, "v0.1": 0.1, "v2": 2.0, "noinfo": None}[feas]
-        info = None if viol is None else ConstraintInfo(bound_lower=np.array([-viol if viol else 1.0]), bound_upper=np.array([-1.0]))
+        info = None if viol is None else ConstraintInfo(bound_lower=np.array([-viol * vscale if viol else 1.0]), bound_upper=np.array([-1.0]))
         return FunctionResults(batch_id=None, metadata={}, evaluations=ev, realizations=real,
                                functions=Functions.create(np.array(sign * obj), np.array([sign * obj])), constraint_info=info)
 
     t = build(1.0)
-    u = build(-1.0) if flip else t
+    # the user-domain twin under a transform: objective sign flipped, constraint differences in other units (x100) - trackers
+    # judge in the optimizer domain
+    u = build(-1.0, 100.0) if flip else t
     viol = None if kind == "nofunc" else {"ok": 0.0, "v0.1": 0.1, "v2": 2.0, "noinfo": 0.0}[feas]
     return u, t, {"kind": kind, "obj": None if kind == "nofunc" else OBJ[oi], "viol": viol}
 
